@@ -784,7 +784,7 @@ impl<'a> Gui<'a> {
                         self.res.bump(&format!("probe.interrupt_at_ply_{}", self.sess.sched.lock().last_poll.1.min(9)));
                         self.res.bump(&format!("probe.interrupt_in_iteration_{}", self.sess.sched.lock().last_poll.2.min(9)));
                     } else if well {
-                        self.res.bump("fault.line_during_search");
+                        self.res.bump(if kind == "UciNewGame" { "fault.ucinewgame_during_search" } else { "fault.line_during_search" });
                     } else {
                         self.res.bump("fault.corrupt_line_during_search");
                     }
@@ -979,7 +979,15 @@ impl<'a> Gui<'a> {
         let exact_focus = matches!(self.focus.as_str(), "C08" | "C09" | "C11");
         if exact_focus && !legal.is_empty() {
             if let Some(d) = c.go.depth {
-                let plain = (1..=3).contains(&d) && c.events.is_empty() && !c.stop_before_dequeue && c.go.movetime.is_none() && c.go.wtime.is_none() && c.go.btime.is_none();
+                // a clock next to the depth limit is fine as long as the iteration of the requested
+                // depth was completed and reported (an expired clock may end the search earlier; then
+                // the reported depth is smaller and nothing is demanded here)
+                let timed = c.go.movetime.is_some() || c.go.wtime.is_some() || c.go.btime.is_some();
+                let reached = win.infos.iter().rev().find(|i| i.score_cp.is_some() || i.score_mate.is_some()).map_or(false, |i| i.depth == Some(d));
+                if timed && reached {
+                    self.res.bump("probe.exactness_checked_on_timed_search");
+                }
+                let plain = (1..=3).contains(&d) && c.events.is_empty() && !c.stop_before_dequeue && c.jumps.is_empty() && (!timed || reached);
                 if plain && root.half + (d as u32) < 45 && !self.cur.has_repeated_position() {
                     self.check_exact(root, rg, d as u32, win, &best, &ctx)?;
                 }
@@ -1548,6 +1556,12 @@ pub fn gen_plan(focus: &str, seed: u64, thorough: bool, pool: &[Pos]) -> EngineP
                 let at = *rng.pick(&[0u64, 600, 2000, 9000]);
                 events.push(Ev { at_node: at + rng.below(300), lines: vec![g.render()] });
             }
+            if rng.chance(1, 8) {
+                // the GUI starts a new game while the engine is still searching (the next cycle sets
+                // its position as usual): whatever the engine resets must not outlive that position
+                let at = *rng.pick(&[0u64, 600, 2000, 9000]);
+                events.push(Ev { at_node: at + rng.below(300), lines: vec!["ucinewgame".to_string()] });
+            }
             if rng.chance(1, 3) {
                 for _ in 0..1 + rng.below(3) {
                     let at = *rng.pick(&[0u64, 512, 1024, 3000, 10_000, 40_000, 150_000]);
@@ -1678,6 +1692,20 @@ pub fn gen_plan_exact(seed: u64, thorough: bool, pool: &[Pos], mates: &[(Pos, u3
         if rng.chance(1, 6) {
             g.searchmoves_picks = (0..1 + rng.below(3)).map(|_| rng.below(256) as u32).collect();
         }
+        // a depth limit next to a clock that is already used up, nearly used up, or comfortable
+        if rng.chance(1, 5) {
+            let times: &[i64] = &[0, 0, 1, 5, 100, 10_000, 600_000];
+            if rng.chance(1, 2) {
+                g.movetime = Some(*rng.pick(times));
+            } else {
+                g.wtime = Some(*rng.pick(times));
+                g.btime = Some(*rng.pick(times));
+                if rng.chance(1, 2) {
+                    g.winc = Some(*rng.pick(&[0i64, 0, 100]));
+                    g.binc = Some(*rng.pick(&[0i64, 0, 100]));
+                }
+            }
+        }
         cycles.push(Cycle { newgame: ci == 0 || rng.chance(1, 4), pos: PosSpec::Set { fen: game.fen.clone(), moves: game.moves.clone() }, pre_lines: vec![], go: g, ns_per_node: *rng.pick(&[1u64, 1000, 1_000_000]), gap_ns: 1_000_000, jumps: vec![], stop_before_dequeue: false, events: vec![], post_lines: vec![] });
     }
     EnginePlan { focus: "C08".into(), knobs, cycles, enumerate_interrupts: false, twin: false }
@@ -1736,6 +1764,13 @@ pub fn gen_plan_twin(seed: u64, thorough: bool, pool: &[Pos], mates: &[(Pos, u32
     let mut rng = Rng::new(seed ^ 0x7717);
     for c in p.cycles.iter_mut() {
         c.go.searchmoves_picks.clear();
+        // no clocks: the replicas may need different node counts for mirrored positions, so an
+        // expiring clock could end them at different depths
+        c.go.movetime = None;
+        c.go.wtime = None;
+        c.go.btime = None;
+        c.go.winc = None;
+        c.go.binc = None;
         // following the engine's own line would let the two replicas part ways on equal-valued
         // moves, which the property allows; re-search the same position instead
         if matches!(c.pos, PosSpec::Follow { .. }) {
